@@ -218,6 +218,12 @@ theorem workDone (sc : Script) (s : State) : R s (Loop.workDone sc s) := by
   refine P.trans ?_ (P.workDoneLoop _ _ _)
   exact P.frame rfl rfl
 
+theorem ringDone (sc : Script) (cq : List Nat) (s : State) : R s (Loop.ringDone sc cq s) := by
+  unfold Loop.ringDone
+  simp only
+  refine P.trans ?_ (P.workDoneLoop _ _ _)
+  exact P.frame (ringTake_frame kp (fun _ _ _ => rfl) s cq) (ringTake_frame (·.trace) (fun _ _ _ => rfl) s cq)
+
 theorem asyncIoLoop (sc : Script) (fuel : Nat) (s : State) : R s (Loop.asyncIoLoop sc fuel s) := by
   induction fuel generalizing s with
   | zero => exact P.refl _
@@ -285,6 +291,9 @@ theorem dispatchLoop (sc : Script) (fuel : Nat) (s : State) (n : Nat) (sg : Bool
             · exact P.trans (h0 _) (P.pollIo _ _ _ _)
             · exact P.trans (h0 _) (P.udpIo _ _ _ _ _)
             · exact h0 _
+      · split
+        · exact P.trans (P.trans (h0 _) (P.ringDone _ _ _)) (ih _ _ _)
+        · exact P.trans (h0 _) (ih _ _ _)
 
 end PhaseRel0
 
